@@ -40,7 +40,7 @@ RtEmit == WF(st) => PrintT("TREE|" \o ToJson([t |-> st, items |-> Flat(st)]))
 
 \* ---- judges ---------------------------------------------------------------------------------
 JInit == st \in 1..Len(Recs)
-JNext == UNCHANGED st
+JNext == FALSE /\ UNCHANGED st     \* every record is an initial state; there is nothing to explore
 Say(why)   == PrintT("V|" \o ToJson([i |-> Recs[st].i, why |-> why]))
 Drift(why) == PrintT("D|" \o ToJson([i |-> Recs[st].i, why |-> why]))
 
